@@ -7,6 +7,9 @@ package rules
 
 import (
 	"fmt"
+	"go/constant"
+	"go/token"
+	"math/big"
 
 	"decverif/internal/cdai"
 	"decverif/internal/model"
@@ -81,6 +84,7 @@ func runTRound(m *model.Model, s *ob.Set) {
 			}
 		}
 	}
+	runDigitSamples(m, s)
 	s.Note(R, "scenarios", pos, fmt.Sprintf("%d hidden-input scenarios enumerated", nCheck))
 }
 
@@ -198,7 +202,12 @@ func runTSetExp(m *model.Model, s *ob.Set) {
 				it.Inline["makeAcc"] = true
 				st := cdai.NewState()
 				z := mkDec(m, st, decSpec{form: i64(e.zero), neg: bptr(neg), mode: i64(e.nearEven), acc: i64(e.exact), exp: i64(99), prec: i64(5)})
-				outs := it.Run(fn, []cdai.Val{z, cdai.Int(exp), cdai.Int(sb)}, st)
+				// (arguments in the order of the parameters: the exponent is the signed 64-bit one)
+				searArgsV := []cdai.Val{z, cdai.Int(exp), cdai.Int(sb)}
+				if ei, si := searArgs(fn); ei == 2 && si == 1 {
+					searArgsV = []cdai.Val{z, cdai.Int(sb), cdai.Int(exp)}
+				}
+				outs := it.Run(fn, searArgsV, st)
 				c := fmt.Sprintf("exp=%d neg=%v sbit=%d", exp, neg, sb)
 				fail := ""
 				if len(outs) == 0 {
@@ -252,6 +261,112 @@ func runTSetExp(m *model.Model, s *ob.Set) {
 				}
 				s.Check(fail == "", R, c, pos, fmt.Sprintf("%d paths", len(outs)), fail)
 			}
+		}
+	}
+}
+
+// runDigitSamples: dec.digit and dec.sticky at sample points. The two helpers round() takes the
+// rounding digit and the sticky bit from are evaluated by constant propagation on a three-word
+// mantissa of known digits, at positions around the word boundaries; the digit must be
+// ⌊x / 10^i⌋ mod 10 and the sticky bit 1 exactly when x mod 10^i ≠ 0. A definite difference at a
+// sample is a violation; a sample that cannot be folded is not decided.
+func runDigitSamples(m *model.Model, s *ob.Set) {
+	const R = "T-ROUND"
+	dw, _ := constant.Int64Val(m.PkgConst("_DW"))
+	// decimal digits of the three words, least significant word first
+	var words []string
+	if dw == 19 {
+		words = []string{"9876543210123456789", "0000000000000000000", "1234567890123456708"}
+	} else {
+		words = []string{"987654321", "000000000", "123456708"}
+	}
+	digitAt := func(i int64) int64 {
+		j, k := i/dw, i%dw
+		if j >= int64(len(words)) {
+			return 0
+		}
+		w := words[j]
+		return int64(w[len(w)-1-int(k)] - '0')
+	}
+	stickyAt := func(i int64) int64 {
+		for p := int64(0); p < i; p++ {
+			if p >= dw*int64(len(words)) {
+				return 1 // x.sticky(i) with i beyond the digits: the whole non-zero x is below
+			}
+			if digitAt(p) != 0 {
+				return 1
+			}
+		}
+		return 0
+	}
+	mk := func() cdai.Lit {
+		l := cdai.Lit{}
+		for _, w := range words {
+			v, _ := new(big.Int).SetString(w, 10)
+			l = append(l, cdai.Const{V: constant.MakeFromLiteral(v.String(), token.INT, 0)})
+		}
+		return l
+	}
+	divModel := func(_ *cdai.Interp, _ *cdai.State, _ string, a []cdai.Val) ([]cdai.Val, bool) {
+		if len(a) != 3 {
+			return nil, false
+		}
+		hi, ok1 := cdai.ConstInt(a[0])
+		lo, ok2 := cdai.ConstInt(a[1])
+		y, ok3 := cdai.ConstInt(a[2])
+		if !ok1 || !ok2 || !ok3 || hi != 0 || y <= 0 || lo < 0 {
+			return nil, false
+		}
+		return []cdai.Val{cdai.Tuple{cdai.Int(lo / y), cdai.Int(lo % y)}}, true
+	}
+	for _, h := range []struct {
+		name string
+		want func(int64) int64
+	}{{"dec.digit", digitAt}, {"dec.sticky", stickyAt}} {
+		fn := m.TryLookup(h.name)
+		if fn == nil || len(fn.Params) != 2 {
+			continue
+		}
+		bad, undecided, n := "", 0, 0
+		for _, i := range []int64{0, 1, 2, dw - 1, dw, dw + 1, 2*dw - 1, 2 * dw, 2*dw + 1, 2*dw + 2, 3*dw - 1} {
+			it := cdai.New(m)
+			it.Budget = 50000
+			it.LoopBound = 64
+			it.Inline["pow10"] = true
+			for _, nm := range []string{"math/bits.Div", "math/bits.Div64", "math/bits.Div32"} {
+				it.Models[nm] = divModel
+			}
+			var outs []cdai.Outcome
+			func() {
+				defer func() {
+					if recover() != nil {
+						outs = nil
+					}
+				}()
+				outs = it.Run(fn, []cdai.Val{mk(), cdai.Int(i)}, cdai.NewState())
+			}()
+			n++
+			if len(outs) != 1 || outs[0].Kind != "return" || len(outs[0].St.Decs) > 0 {
+				undecided++
+				continue
+			}
+			v, ok := retInt(outs[0], 0)
+			if !ok {
+				undecided++
+				continue
+			}
+			if w := h.want(i); v != w && bad == "" {
+				bad = fmt.Sprintf("%s(x, %d) is %d for x = %s|%s|%s (words, most significant first); by definition it is %d", fn.Name(), i, v, words[2], words[1], words[0], w)
+			}
+		}
+		cn := h.name + "/samples"
+		switch {
+		case bad != "":
+			s.Bad(R, cn, m.Pos(fn.Pos()), bad+": round() takes the rounding digit, the parity of the last kept digit and the sticky bit from here")
+		case undecided == n:
+			s.Note(R, cn, m.Pos(fn.Pos()), "no sample position could be folded (not decided)")
+		default:
+			s.Ok(R, cn, m.Pos(fn.Pos()), fmt.Sprintf("%d of %d sample positions give the digit / sticky bit the definition gives", n-undecided, n))
 		}
 	}
 }
